@@ -39,22 +39,47 @@ package gonum
 //@ ensures incX < 0 || n == 0 ==> result == -1
 //@ ensures incX > 0 && n > 0 ==> 0 <= result && result < n
 
-//@ func Implementation.Dswap Implementation.Sswap Implementation.Drot Implementation.Srot Implementation.Drotm Implementation.Srotm props: C01(frame) C07(safety)
+//@ func Implementation.Dswap Implementation.Sswap props: C01 C07(safety)
+//@ valid incX != 0 && incY != 0 && n >= 0 && vec(x, n, incX) && vec(y, n, incY)
+//@ panics iff !valid, before-writes
+//@ writes x[start(n,incX)+k*incX] for k in 0..n ; y[start(n,incY)+k*incY] for k in 0..n
+//@ ensures disjoint(x, y) ==> forall(k, 0, n, same(x[start(n,incX)+k*incX], old(y[start(n,incY)+k*incY])) && same(y[start(n,incY)+k*incY], old(x[start(n,incX)+k*incX])))
+
+//@ func Implementation.Drot Implementation.Srot Implementation.Drotm Implementation.Srotm props: C01(frame) C07(safety)
 //@ valid incX != 0 && incY != 0 && n >= 0 && vec(x, n, incX) && vec(y, n, incY)
 //@ panics iff !valid, before-writes
 //@ writes x[start(n,incX)+k*incX] for k in 0..n ; y[start(n,incY)+k*incY] for k in 0..n
 
-//@ func Implementation.Dcopy Implementation.Scopy Implementation.Daxpy Implementation.Saxpy props: C01(frame) C07(safety)
+// Exact element-wise values (no summation is involved, so the BLAS definition
+// leaves no freedom): stated for operands that do not share storage.
+
+//@ func Implementation.Dcopy Implementation.Scopy props: C01 C07(safety)
 //@ valid incX != 0 && incY != 0 && n >= 0 && vec(x, n, incX) && vec(y, n, incY)
 //@ panics iff !valid, before-writes
 //@ writes y[start(n,incY)+k*incY] for k in 0..n
+//@ ensures disjoint(x, y) ==> forall(k, 0, n, same(y[start(n,incY)+k*incY], old(x[start(n,incX)+k*incX])))
+
+//@ func Implementation.Daxpy Implementation.Saxpy props: C01 C07(safety)
+//@ valid incX != 0 && incY != 0 && n >= 0 && vec(x, n, incX) && vec(y, n, incY)
+//@ panics iff !valid, before-writes
+//@ writes y[start(n,incY)+k*incY] for k in 0..n
+//@ ensures disjoint(x, y) && alpha != 0 ==> forall(k, 0, n, same(y[start(n,incY)+k*incY], old(y[start(n,incY)+k*incY]) + alpha*old(x[start(n,incX)+k*incX])))
+//@ ensures alpha == 0 ==> forall(k, 0, n, same(y[start(n,incY)+k*incY], old(y[start(n,incY)+k*incY])))
 
 //@ func Implementation.Ddot Implementation.Sdot Implementation.Dsdot Implementation.Sdsdot props: C01(frame) C07(safety)
 //@ valid incX != 0 && incY != 0 && n >= 0 && vec(x, n, incX) && vec(y, n, incY)
 //@ panics iff !valid, before-writes
 //@ writes nothing
 
-//@ func Implementation.Dscal Implementation.Sscal props: C01(frame) C07(safety)
+//@ func Implementation.Dscal props: C01 C07(safety)
+//@ requires !(n < 0 && incX < 0)
+//@ valid incX != 0 && n >= 0 && (incX < 0 || vec(x, n, incX))
+//@ panics iff !valid, before-writes
+//@ writes x[k*incX] for k in 0..n if incX > 0
+//@ ensures incX > 0 && alpha != 0 ==> forall(k, 0, n, same(x[k*incX], old(x[k*incX]) * alpha))
+//@ ensures incX > 0 && alpha == 0 ==> forall(k, 0, n, same(x[k*incX], float64(0)))
+
+//@ func Implementation.Sscal props: C01(frame) C07(safety)
 //@ requires !(n < 0 && incX < 0)
 //@ valid incX != 0 && n >= 0 && (incX < 0 || vec(x, n, incX))
 //@ panics iff !valid, before-writes
